@@ -79,7 +79,10 @@ protected:
       return traits::eof();
     std::size_t const want = chunk_ == 0 ? size() - pos : std::min(chunk_, size() - pos);
     if (area_.size() < want)
+    {
+      fault::Harness h; // the stub's own storage is never a fault site
       area_.resize(want);
+    }
     std::copy(data_.begin() + static_cast<std::ptrdiff_t>(pos),
               data_.begin() + static_cast<std::ptrdiff_t>(pos + want), area_.begin());
     base_pos_ = pos;
@@ -131,6 +134,7 @@ protected:
       return traits::not_eof(c);
     if (!take(1))
       return traits::eof();
+    fault::Harness h;
     data_.push_back(traits::to_char_type(c));
     return c;
   }
@@ -138,6 +142,7 @@ protected:
   std::streamsize xsputn(Ch const *s, std::streamsize n) override
   {
     std::streamsize const k = static_cast<std::streamsize>(take(static_cast<std::size_t>(n)));
+    fault::Harness h;
     data_.append(s, static_cast<std::size_t>(k));
     return k;
   }
